@@ -84,6 +84,14 @@ fn gen_history(rng: &mut Rng, m: &mut GModel, huge: bool) -> Vec<String> {
                 1 => 8 * rng.below(6) as usize,
                 _ => rng.below((3 * vc.min(700) + 1) as u64) as usize,
             };
+            // a quarter of the replacements keep the mesh's vertex and index counts (only the
+            // contents and, when an earlier mesh of the LOD changed size, the sub-mesh ranges move)
+            let (vc, ni) = if rng.chance(1, 4) {
+                let old = &m.lods[l].meshes[d];
+                (old.vcount as usize, old.indices.len())
+            } else {
+                (vc, ni)
+            };
             new_vc.push(vc);
             new_ni.push(ni);
         }
